@@ -336,3 +336,27 @@ PROPS["C14"] = dict(
         dict(name="sampled-noinline", run="^TestSampled$", tier="thorough", thorough=100000, shards=8, gcflags="all=-l"),
     ],
 )
+
+PROPS["C15"] = dict(
+    pkg="c15", level="exploration",
+    technique="property-based testing (rapid) of generated log/slog records and handler derivation chains against an expected attribute tree decoded with the independent parsers; all (logger level, bridge severity) pairs for the std log bridge; enumeration of log/slog level values for Logger.Log",
+    claim=("(a) Records with any level in -20..20, explicit time, any message and attributes of every log/slog kind (Bool, Int64, Uint64, Float64, "
+           "String, Time, Duration, Group nested to depth 3, LogValuer also inside groups, Any with errors, []byte, slices, structs, nil) are "
+           "sent through a log/slog.Logger or directly to Handler.Handle, on handlers derived by chains of 0-4 WithAttrs/WithGroup steps over a "
+           "logger at any of the 12 levels (set directly or through HandlerOptions); exactly one record must reach the underlying logger's own "
+           "writers, in its format, carrying the message, the record's time, the namesake level for Debug/Info/Warn/Error (never a terminating "
+           "one for other values) and exactly the expected tree (WithAttrs content at its depth, everything after WithGroup(g) nested under g); "
+           "Enabled must equal the C01 rule on the namesake. (b) the std log bridge for all 144 (logger level, bridge severity) pairs and "
+           "messages with 0-2 trailing newlines: one record with the message minus one trailing newline at the bridge severity iff the C01 rule "
+           "admits it. (c) Logger.Log for every log/slog level -40..40."),
+    note="Attribute keys are non-empty and unique per nesting level (log/slog's own rules for empty keys/inline groups are not modelled); colored format is only checked for 'one record on the right writer'; n/err of the bridge writer are not observable through log.Logger.",
+    rule=("rapid draws the scenario. Non-trivial (handler): a derivation chain of length >= 1, a group / LogValuer / Any attribute, or a "
+          "non-standard level; distinct = (format, logger level, slog level, chain length, class set, path, emitted). Bridge: every case is "
+          "keyed by (level, severity, admitted, call, newline count)."),
+    assumptions=["log/slog of the building toolchain constructs the records"],
+    stages=[
+        dict(name="levels", run="^TestLogLevelMapping$", quick=1, thorough=1),
+        dict(name="handler", run="^TestHandler$", quick=20000, thorough=800000, shards=16, timeout_thorough=3000),
+        dict(name="bridge", run="^TestBridge$", quick=10000, thorough=300000, shards=8, timeout_thorough=3000),
+    ],
+)
